@@ -11,6 +11,8 @@ import vcheck, conc_check, fc_util
 SIG_UAF = "fc-compact-free-while-linked"
 WHAT_UAF = ("flat_combining::kernel::compact_list frees a publication record that is still linked in the publication list "
             "(owner exits between loop 1 and loop 2); a later combining pass reads the freed record")
+WHAT_UAF_OTHER = "a publication record of flat_combining::kernel is accessed after compact_list freed it (poisoned-record monitor on the real code)"
+WHAT_HANG = "the real flat_combining::kernel crashes or does not terminate on a case the model finishes"
 
 
 def gen_cases(ctx, n, prefix="g"):
@@ -75,13 +77,14 @@ def analyse(ctx, c, m, i, stats, report=True):
     elif mon.get("bad_exec", 0) > 0:
         fail = "a requester observed req_Response while the execution counter of its request was not 1 (execution counter monitor)"
     else:
-        e = fc_util.fc_monitor(i["lines"])
-        if e and i["end"] == "finished":
+        e = fc_util.fc_monitor(i["lines"]) if i["end"] == "finished" else None
+        if e:
             fail = "flat-combining trace predicate violated on the real code: " + e[0]
             stats["detail"] = e[1]
     known = (fail == "uaf" and d is None and nu > 0)
     if fail == "uaf":
-        fail = WHAT_UAF + " (poisoned-record monitor: %d accesses after free)" % mon.get("uaf", 0)
+        fail = WHAT_UAF if known else WHAT_UAF_OTHER
+        stats["detail"] = "%d accesses after free" % mon.get("uaf", 0)
     return (d, fail, known)
 
 
@@ -105,7 +108,7 @@ def run(ctx):
     if not ctx.replay:
         cases += gen_cases(ctx, 12000 if ctx.thorough() else 2000)
 
-    rc1, mlog, rc2, ilog, raw = fc_util.run_both_par(ctx, model, impl, cases, timeout=1200)
+    rc1, mlog, rc2, ilog, raw = fc_util.run_both_par(ctx, model, impl, cases, timeout=(900 if ctx.thorough() else 240))
     stats = {}
     shapes = set(); nontrivial = set(); feat_hist = {}; kind_hist = {}; steps = 0
     diverged = 0; first_div = None; concrete = 0; known_uaf = 0
@@ -135,12 +138,18 @@ def run(ctx):
             if first_div is None:
                 first_div = (c, d)
 
+    for c in fc_util.first_unfinished(cases, ilog):
+        m = mlog.get(c["id"])
+        if m is not None and m["end"] == "finished":
+            concrete += 1
+            ctx.violation(WHAT_HANG, {"case": c, "model_log_tail": m["lines"][-40:]})
+
     if first_div is not None and concrete == 0 and not ctx.replay:
         # the correspondence broke and no monitor fired on these cases: search an enlarged seed set with the monitors
         found = False
         for rnd in range(2):
             more = gen_cases(ctx, 3000, prefix="s%d_" % rnd)
-            _, ml2, _, il2, _ = fc_util.run_both_par(ctx, model, impl, more, tag="search", timeout=1200)
+            _, ml2, _, il2, _ = fc_util.run_both_par(ctx, model, impl, more, tag="search", timeout=(900 if ctx.thorough() else 240))
             for c2 in more:
                 m2 = ml2.get(c2["id"]); i2 = il2.get(c2["id"])
                 d2, fail2, known2 = analyse(ctx, c2, m2, i2, stats)
